@@ -112,6 +112,7 @@ def check_pixels(kind, t, out):
 
 class C20(PropertyCheck):
     pid = "C20"
+    source_tables = ["Tex20", "Tile", "Etc1", "Pixel"]   # tables / constants regenerated from /repo's source (gen/srctables.py)
     release_too = True
     kdiff_smallest_first = True
     rule = ("per container format (CTPK, BCH, CGFX, TPL): files written by an independent Python writer with placement knobs (0-6 textures, the nine "
